@@ -220,5 +220,7 @@ EmitGhostEdge ==
            rid == IF s.a = "OpenView" THEN s.id ELSE <<"?">>
        IN IF \E c \in cache : c.to < 0 /\ c.id = rid
           THEN PrintT(<<"B", ToJson([steps |-> hist', obs |-> Obs])>>) ELSE TRUE
+\* the same, on the part of the graph where only views fill the cache (no refused commits)
+EmitGhostEdgeViewsOnly == res' \notin {"refused", "noprev"} /\ EmitGhostEdge
 HBound == Len(hist) <= 40
 =============================================================================
